@@ -51,6 +51,9 @@ func (c *vctx) Value(k any) any {
 }
 
 func (c *vctx) cancel(err error, schedulePoint bool) {
+	if schedulePoint && !sched.G.Dead() {
+		sched.G.Yield("ctx cancel", nil)
+	}
 	if c.closed {
 		return
 	}
@@ -59,9 +62,6 @@ func (c *vctx) cancel(err error, schedulePoint bool) {
 	vsync.CloseQuiet(c.done)
 	for _, ch := range c.children {
 		ch.cancel(err, false)
-	}
-	if schedulePoint && !sched.G.Dead() {
-		sched.G.Yield("ctx cancel", nil)
 	}
 }
 
